@@ -39,6 +39,28 @@ def add_recovery(g, rng):
     return g
 
 
+def add_markers(g, rng):
+    """mid-rule marker nonterminals: `M: () = => mark(t);` inserted into one or two alternatives
+    (an empty, ()-typed alternative whose user code only has a side effect)"""
+    g = dict(g)
+    prods = [dict(p, rhs=list(p["rhs"])) for p in g["prods"]]
+    nts = list(g["nts"])
+    names = [n for n in ("M", "N") if n not in nts]
+    for name in names[:rng.choice([1, 1, 2])]:
+        cands = [p for p in prods if len(p["rhs"]) >= 1 and p["lhs"] not in ("M", "N")]
+        if not cands:
+            break
+        p = rng.choice(cands)
+        pos = rng.randint(1, len(p["rhs"])) if rng.random() < 0.8 else 0
+        p["rhs"].insert(pos, name)
+        nts.append(name)
+        prods.append({"lhs": name, "rhs": []})
+    g["prods"] = prods
+    g["nts"] = nts
+    g["markers"] = [n for n in names if n in nts]
+    return g
+
+
 def annotate(g, rng, p_loc=0.35, p_fallible=0.15):
     nts = g["nts"]
     kinds = {}
@@ -47,6 +69,8 @@ def annotate(g, rng, p_loc=0.35, p_fallible=0.15):
         kinds[nt] = "V" if (nt in g["starts"] or r < 0.6) else ("unit" if r < 0.75 else "infer")
         if any(p["lhs"] == nt and "error" in p["rhs"] for p in g["prods"]):
             kinds[nt] = "V"
+        if nt in g.get("markers", []):
+            kinds[nt] = "unit"
     # `infer` only for nonterminals with a single alternative mentioning no infer nonterminal and not itself
     for nt in nts:
         if kinds[nt] == "infer":
@@ -109,7 +133,7 @@ def annotate(g, rng, p_loc=0.35, p_fallible=0.15):
                 if rng.random() < 0.5:
                     for s in syms:
                         s["sel"] = rng.random() < 0.5
-        elif kind == "unit" and rng.random() < 0.5:
+        elif kind == "unit" and (rng.random() < 0.5 or p["lhs"] in g.get("markers", [])):
             form = "useru"     # `=> mark(tag)`: user code run for its side effect, also on empty alternatives
             for s in syms:
                 s["sel"] = rng.random() < 0.4
